@@ -1,6 +1,6 @@
-(** C01 for SADUMP, open path of a single-partition dump: [sd_open] on the
-    encoder's output yields the state the page-path theorem needs, and the
-    geometry. *)
+(** C01 for SADUMP, open paths: [sd_open] on the encoder's output - a single
+    partition, a media backup, or a disk set - yields the state the page-path
+    theorem needs, the geometry, and extents that lay out the page data. *)
 From Coq Require Import NArith List Bool Lia Arith.
 From KdV Require Import Fmt.Codec Fmt.CodecProofs Fmt.PfnModel Fmt.PfnProofs Fmt.BitmapSpec Fmt.ImageSpec
      Fmt.SadumpModel Fmt.SadumpSpec Fmt.SadumpProofs.
@@ -23,24 +23,25 @@ Proof.
 Qed.
 
 (** the loop of [verify_magic_number] runs to the end of the sequence *)
-Lemma magic_loop_run f : forall k prev A rest fuel,
+Lemma magic_loop_run rd fidx f (Hrd : forall off n, rd fidx off n = read_of f off n) :
+  forall k prev A rest fuel,
   f = A ++ put32 false prev ++ magic_seq k (nx prev) ++ rest ->
   (k < fuel)%nat -> prev < 2^32 ->
   get false (read_of rest 0 4) <> magic_nth (S k) prev ->
-  magic_loop (read_files [f]) fuel 0 (len A) prev = Some (len A + 4 + 4 * N.of_nat k).
+  magic_loop rd fuel fidx (len A) prev = Some (len A + 4 + 4 * N.of_nat k).
 Proof.
   induction k as [| k IH]; intros prev A rest fuel Ef Hfuel Hprev Hbreak.
   - destruct fuel as [| fuel]; [lia |]. cbn [magic_loop].
-    assert (Hw : get32 false (read_files [f] 0 (len A + 4) 4) 0 = get false (read_of rest 0 4)).
-    { unfold read_files. cbn [nth N.to_nat]. rewrite get32_read by lia. rewrite Ef. cbn [magic_seq app].
+    assert (Hw : get32 false (rd fidx (len A + 4) 4) 0 = get false (read_of rest 0 4)).
+    { rewrite Hrd. rewrite get32_read by lia. rewrite Ef. cbn [magic_seq app].
       rewrite app_assoc. rewrite read_of_skip by (rewrite len_app, len_put32; lia).
       rewrite len_app, len_put32. f_equal. f_equal. lia. }
     rewrite Hw. cbn [magic_nth] in Hbreak. fold (nx prev).
     destruct (N.eqb_spec (get false (read_of rest 0 4)) (nx prev)); [contradiction |].
     cbn [negb N.of_nat]. f_equal. lia.
   - destruct fuel as [| fuel]; [lia |]. cbn [magic_loop].
-    assert (Hw : get32 false (read_files [f] 0 (len A + 4) 4) 0 = nx prev).
-    { unfold read_files. cbn [nth N.to_nat]. rewrite get32_read by lia. rewrite Ef. cbn [magic_seq].
+    assert (Hw : get32 false (rd fidx (len A + 4) 4) 0 = nx prev).
+    { rewrite Hrd. rewrite get32_read by lia. rewrite Ef. cbn [magic_seq].
       rewrite app_assoc, <- (app_assoc (put32 false (nx prev))).
       rewrite N.add_0_r. rewrite (read_of_section' (A ++ put32 false prev) (put32 false (nx prev))).
       - unfold put32. apply get_put. pose proof (nx_lt prev). cbn. lia.
@@ -60,15 +61,16 @@ Qed.
 Lemma len_cpu_state l lma : 1000 <= sl_cpu_size l -> len (cpu_state l lma) = sl_cpu_size l.
 Proof. intro H. unfold cpu_state. rewrite len_enc_flds. cbn [flds_len fld_len]. lia. Qed.
 
-Lemma cpu_loop_run f l : forall lmas B rest,
+Lemma cpu_loop_run rd fidx f l (Hrd : forall off n, rd fidx off n = read_of f off n) :
+  forall lmas B rest,
   1024 <= sl_cpu_size l ->
   f = B ++ flat_map (cpu_state l) lmas ++ rest ->
-  cpu_loop (read_files [f]) (length lmas) 0 (len B) (sl_cpu_size l) = if existsb (fun b => b) lmas then 8 else 4.
+  cpu_loop rd (length lmas) fidx (len B) (sl_cpu_size l) = if existsb (fun b => b) lmas then 8 else 4.
 Proof.
   induction lmas as [| b t IH]; intros B rest Hsz Ef; [reflexivity |].
   cbn [length cpu_loop existsb].
-  assert (He : get64 false (read_files [f] 0 (len B) CPU_STATE_SIZE) CPU_STATE_EFER = if b then 1025 else 1).
-  { unfold read_files. cbn [nth N.to_nat]. unfold CPU_STATE_SIZE, CPU_STATE_EFER.
+  assert (He : get64 false (rd fidx (len B) CPU_STATE_SIZE) CPU_STATE_EFER = if b then 1025 else 1).
+  { rewrite Hrd. unfold CPU_STATE_SIZE, CPU_STATE_EFER.
     rewrite get64_read by lia. rewrite Ef. cbn [flat_map]. rewrite <- app_assoc.
     rewrite read_of_skip by lia. replace (len B + 992 - len B) with 992 by lia.
     unfold cpu_state at 1.
@@ -80,9 +82,8 @@ Proof.
     apply (IH (B ++ cpu_state l false) rest); [assumption |]. rewrite Ef. cbn [flat_map]. now rewrite <- !app_assoc.
 Qed.
 
-(** * well-formed single-partition layouts *)
-Record sd_wf (l : sd_layout) (img : image) : Prop := {
-  sw_kind : sl_kind l = SdSingle;
+(** * what every SADUMP layout must satisfy *)
+Record sd_wf_base (l : sd_layout) (img : image) : Prop := {
   sw_bs : exists k, 8 <= k <= 20 /\ sl_block_size l = 2^k;
   sw_version : sl_version l <= 1;
   sw_mapnr : (sl_version l = 0 -> sl_max_mapnr l < 2^32) /\ sl_max_mapnr l < 2^64;
@@ -95,35 +96,43 @@ Record sd_wf (l : sd_layout) (img : image) : Prop := {
              N.of_nat (length img) <= sl_max_mapnr l;
   sw_pages : Forall (fun oc => match oc with Some c => len c = 4096 | None => True end) img;
   sw_ids : len (sl_ids l) = 48;
-  sw_vol : len (nth 0 (sl_vol_ids l) []) = 16;
-  sw_magic : sl_magic0 l < 2^32 /\
-             1969512819 <> magic_nth (S (N.to_nat ((sl_block_size l - 168) / 4 - 1))) (sl_magic0 l);
-  sw_size : len (hd [] (encode_sadump l img)) < 2^64
+  sw_magic0 : sl_magic0 l < 2^32
 }.
 
-Section Single.
+(** the magic number that would follow the last one of the partition header block *)
+Definition next_magic (l : sd_layout) : N :=
+  magic_nth (S (N.to_nat ((sl_block_size l - 168) / 4 - 1))) (sl_magic0 l).
+
+(** * the file that carries the headers: the only file, or disk 1 of a set
+
+    [pre] is what precedes the partition header (nothing, or the media
+    header), [mid] what lies between the partition header block and the dump
+    header (nothing, or the disk set header), [d1] the page data stored in
+    this file. *)
+Section Head.
   Variable l : sd_layout.
   Variable img : image.
-  Hypothesis Hwf : sd_wf l img.
+  Variable rd : N -> N -> N -> bytes.
+  Variable pre mid d1 vol : bytes.
+  Variable disk : N.
+  Hypothesis Hwf : sd_wf_base l img.
 
   Let bs := sl_block_size l.
-  Let data := page_data img.
-  Let vol := nth 0 (sl_vol_ids l) [].
-  Let used := bs + body_len l + len data.
-  Let F := part_header l 0 vol used ++ body l img ++ data.
-  Let rd := read_files [F].
+  Let base := len pre.
+  Let m := len mid.
+  Let used := base + bs + m + body_len l + len d1.
+  Let F := pre ++ part_header l disk vol used ++ mid ++ body l img ++ d1.
   Let n := N.to_nat ((bs - 168) / 4).
   Let cpus := nr_cpus l.
 
-  Lemma enc_single : encode_sadump l img = [F].
-  Proof. unfold encode_sadump. rewrite (sw_kind _ _ Hwf). reflexivity. Qed.
+  Hypothesis Hrd : forall off k, rd 0 off k = read_of F off k.
 
   Definition phf : list fld :=
     [ F32 1969512819; F32 28781; F32 1; F32 0; F32 0; F32 0; FB 64 [];
       FB 32 (sub (sl_ids l) 0 32); FB 16 vol; FB 16 (sub (sl_ids l) 32 16);
-      F32 0; F32 0; F64 used ].
+      F32 disk; F32 0; F64 used ].
 
-  Lemma ph_is : part_header l 0 vol used = enc_flds false phf ++ magic_seq n (sl_magic0 l).
+  Lemma ph_is : part_header l disk vol used = enc_flds false phf ++ magic_seq n (sl_magic0 l).
   Proof. reflexivity. Qed.
 
   Lemma bs_facts : 256 <= bs <= 2^20 /\ bs = 168 + 4 * N.of_nat n /\ (1 <= n)%nat.
@@ -150,30 +159,12 @@ Section Single.
     repeat (destruct Hc as [-> | Hc]; [vm_compute; reflexivity |]). subst. vm_compute. reflexivity.
   Qed.
 
-  Lemma len_ph : len (part_header l 0 vol used) = bs.
+  Definition PHb : bytes := part_header l disk vol used.
+
+  Lemma len_PHb : len PHb = bs.
   Proof.
-    rewrite ph_is, len_app, len_enc_flds, len_magic_seq. destruct bs_facts as [_ [E _]].
+    unfold PHb. rewrite ph_is, len_app, len_enc_flds, len_magic_seq. destruct bs_facts as [_ [E _]].
     cbn [flds_len fld_len phf]. lia.
-  Qed.
-
-  (** ** the partition header *)
-  Lemma sph_is : rd 0 0 SPH_SIZE = enc_flds false phf.
-  Proof.
-    unfold rd, read_files. cbn [nth N.to_nat]. unfold F. rewrite ph_is, <- !app_assoc.
-    apply read_of_exact'. rewrite len_enc_flds. reflexivity.
-  Qed.
-
-  Lemma used_small : used < 2^64.
-  Proof.
-    pose proof (sw_size _ _ Hwf) as H. rewrite enc_single in H. cbn [hd] in H. unfold F in H.
-    rewrite !len_app, len_ph in H. unfold used.
-    assert (Hb : len (body l img) = body_len l).
-    { unfold body, body_len. fold bs. unfold dump_header, sub_header.
-      rewrite !len_app, !len_fit. fold bs.
-      assert (Hl : forall m k bits, len (bits_to_bytes m k bits) = N.of_nat k).
-      { intros m k. induction k; intro bits; [reflexivity |]. cbn [bits_to_bytes]. rewrite len_cons, IHk. lia. }
-      rewrite !Hl. lia. }
-    rewrite Hb in H. fold data in H. lia.
   Qed.
 
   (** ** the sections behind the partition header *)
@@ -190,7 +181,7 @@ Section Single.
   Definition MB : bytes := bits_to_bytes true (N.to_nat (sl_bitmap_blocks l * bs)) (sl_mem_bits l).
   Definition DB : bytes := bits_to_bytes true (N.to_nat (sl_dumpable_blocks l * bs)) (map (@is_some bytes) img).
 
-  Lemma len_btb m k bits : len (bits_to_bytes m k bits) = N.of_nat k.
+  Lemma len_btb mm k bits : len (bits_to_bytes mm k bits) = N.of_nat k.
   Proof. revert bits. induction k; intro bits; [reflexivity |]. cbn [bits_to_bytes]. rewrite len_cons, IHk. lia. Qed.
 
   Lemma len_subc : len subc = 4 + 16 * cpus + sl_cpu_size l * cpus.
@@ -204,11 +195,10 @@ Section Single.
 
   Definition DHb : bytes := enc_flds false dhf ++ zeros (bs - 120).
   Definition SUBb : bytes := subc ++ zeros (sl_sub_blocks l * bs - len subc).
-  Definition PHb : bytes := part_header l 0 vol used.
 
-  Lemma F_sections : F = PHb ++ DHb ++ SUBb ++ MB ++ DB ++ data.
+  Lemma body_sections : body l img = DHb ++ SUBb ++ MB ++ DB.
   Proof.
-    unfold F, body, PHb, DHb, SUBb. fold bs MB DB. rewrite <- !app_assoc. f_equal.
+    unfold body, DHb, SUBb. fold bs MB DB. rewrite <- !app_assoc.
     unfold dump_header. fold bs cpus. rewrite fit_small by (rewrite len_enc_flds; destruct bs_facts; cbn; lia).
     rewrite len_enc_flds. change (flds_len _) with 120. fold dhf. rewrite <- !app_assoc. do 2 f_equal.
     unfold sub_header. fold bs cpus subc.
@@ -216,7 +206,9 @@ Section Single.
     now rewrite <- !app_assoc.
   Qed.
 
-  Lemma len_PHb : len PHb = bs. Proof. apply len_ph. Qed.
+  Lemma F_sections : F = pre ++ PHb ++ mid ++ DHb ++ SUBb ++ MB ++ DB ++ d1.
+  Proof. unfold F, PHb. rewrite body_sections, <- !app_assoc. reflexivity. Qed.
+
   Lemma len_DHb : len DHb = bs.
   Proof. unfold DHb. rewrite len_app, len_enc_flds, len_zeros. change (flds_len dhf) with 120. destruct bs_facts as [[H _] _]. lia. Qed.
   Lemma len_SUBb : len SUBb = sl_sub_blocks l * bs.
@@ -224,37 +216,64 @@ Section Single.
   Lemma len_MB : len MB = sl_bitmap_blocks l * bs. Proof. unfold MB. rewrite len_btb. lia. Qed.
   Lemma len_DB : len DB = sl_dumpable_blocks l * bs. Proof. unfold DB. rewrite len_btb. lia. Qed.
 
-  Lemma rd_F o k : rd 0 o k = read_of F o k. Proof. reflexivity. Qed.
+  Lemma len_body : len (body l img) = body_len l.
+  Proof. rewrite body_sections, !len_app, len_DHb, len_SUBb, len_MB, len_DB. unfold body_len. fold bs. lia. Qed.
 
-  Lemma rd_dh : rd 0 bs SH_SIZE = enc_flds false dhf.
+  (** positions *)
+  Definition hdr_pos : N := base + bs + m.
+  Definition bmp_pos : N := hdr_pos + bs * (1 + sl_sub_blocks l) + bs * sl_bitmap_blocks l.
+  Definition data_pos : N := bmp_pos + bs * sl_dumpable_blocks l.
+
+  Lemma data_pos_is : data_pos = hdr_pos + body_len l.
+  Proof. unfold data_pos, bmp_pos, body_len. fold bs. lia. Qed.
+
+  Lemma sph_is : rd 0 base SPH_SIZE = enc_flds false phf.
   Proof.
-    rewrite rd_F, F_sections. rewrite <- len_PHb, <- (N.add_0_r (len PHb)), read_of_skip_add.
+    rewrite Hrd. unfold F, base. rewrite <- (N.add_0_r (len pre)), read_of_skip_add.
+    rewrite ph_is, <- !app_assoc. apply read_of_exact'. rewrite len_enc_flds. reflexivity.
+  Qed.
+
+  Lemma rd_mid : rd 0 (base + bs) m = mid.
+  Proof.
+    rewrite Hrd, F_sections. unfold base. rewrite <- len_PHb, <- (N.add_0_r (len PHb)).
+    rewrite !read_of_skip_add. apply read_of_exact'. reflexivity.
+  Qed.
+
+  Lemma rd_mid_part off k : off + k <= m -> rd 0 (base + bs + off) k = read_of mid off k.
+  Proof.
+    intro H. rewrite Hrd, F_sections. unfold base. rewrite <- len_PHb, <- N.add_assoc.
+    rewrite !read_of_skip_add. now apply read_of_prefix.
+  Qed.
+
+  Lemma rd_dh : rd 0 hdr_pos SH_SIZE = enc_flds false dhf.
+  Proof.
+    rewrite Hrd, F_sections. unfold hdr_pos, base, m.
+    replace (len pre + bs + len mid) with (len pre + (len PHb + (len mid + 0))) by (rewrite len_PHb; lia).
+    rewrite !read_of_skip_add.
     unfold DHb. rewrite <- !app_assoc. apply read_of_exact'. rewrite len_enc_flds. reflexivity.
   Qed.
 
-  Lemma rd_subc off k : off + k <= len subc -> rd 0 (bs + bs + off) k = read_of subc off k.
+  Lemma rd_subc off k : off + k <= len subc -> rd 0 (hdr_pos + bs + off) k = read_of subc off k.
   Proof.
-    intro H. rewrite rd_F, F_sections.
-    replace (bs + bs + off) with (len PHb + (len DHb + off)) by (rewrite len_PHb, len_DHb; lia).
+    intro H. rewrite Hrd, F_sections. unfold hdr_pos, base, m.
+    replace (len pre + bs + len mid + bs + off) with (len pre + (len PHb + (len mid + (len DHb + off))))
+      by (rewrite len_PHb, len_DHb; lia).
     rewrite !read_of_skip_add. unfold SUBb. rewrite <- !app_assoc. now apply read_of_prefix.
   Qed.
 
-  Definition bmp_pos : N := bs + bs * (1 + sl_sub_blocks l) + bs * sl_bitmap_blocks l.
-  Definition data_pos : N := bmp_pos + bs * sl_dumpable_blocks l.
-
   Lemma rd_db : rd 0 bmp_pos (bs * sl_dumpable_blocks l) = DB.
   Proof.
-    rewrite rd_F, F_sections.
-    replace bmp_pos with (len PHb + (len DHb + (len SUBb + (len MB + 0))))
-      by (rewrite len_PHb, len_DHb, len_SUBb, len_MB; unfold bmp_pos; lia).
+    rewrite Hrd, F_sections.
+    replace bmp_pos with (len pre + (len PHb + (len mid + (len DHb + (len SUBb + (len MB + 0))))))
+      by (rewrite len_PHb, len_DHb, len_SUBb, len_MB; unfold bmp_pos, hdr_pos, base, m; lia).
     rewrite !read_of_skip_add. apply read_of_exact'. rewrite len_DB. lia.
   Qed.
 
-  Lemma rd_data o k : o + k <= len data -> rd 0 (data_pos + o) k = read_of data o k.
+  Lemma rd_data o k : o + k <= len d1 -> rd 0 (data_pos + o) k = read_of d1 o k.
   Proof.
-    intro H. rewrite rd_F, F_sections.
-    replace (data_pos + o) with (len PHb + (len DHb + (len SUBb + (len MB + (len DB + o)))))
-      by (rewrite len_PHb, len_DHb, len_SUBb, len_MB, len_DB; unfold data_pos, bmp_pos; lia).
+    intro H. rewrite Hrd, F_sections.
+    replace (data_pos + o) with (len pre + (len PHb + (len mid + (len DHb + (len SUBb + (len MB + (len DB + o)))))))
+      by (rewrite len_PHb, len_DHb, len_SUBb, len_MB, len_DB; unfold data_pos, bmp_pos, hdr_pos, base, m; lia).
     now rewrite !read_of_skip_add.
   Qed.
 
@@ -265,36 +284,34 @@ Section Single.
     cbn [magic_seq]. replace (S k - 1)%nat with k by lia. reflexivity.
   Qed.
 
+  Definition after_block : bytes := mid ++ DHb ++ SUBb ++ MB ++ DB ++ d1.
+
   Lemma F_magic :
-    F = enc_flds false phf ++ put32 false (sl_magic0 l) ++ magic_seq (n - 1) (nx (sl_magic0 l))
-        ++ (DHb ++ SUBb ++ MB ++ DB ++ data).
-  Proof. rewrite F_sections. unfold PHb. rewrite ph_is, magic_unfold, <- !app_assoc. reflexivity. Qed.
+    F = (pre ++ enc_flds false phf) ++ put32 false (sl_magic0 l) ++ magic_seq (n - 1) (nx (sl_magic0 l))
+        ++ after_block.
+  Proof. rewrite F_sections. unfold PHb, after_block. rewrite ph_is, magic_unfold, <- !app_assoc. reflexivity. Qed.
 
-  Lemma dh_starts : get false (read_of (DHb ++ SUBb ++ MB ++ DB ++ data) 0 4) = 1969512819.
-  Proof.
-    unfold DHb.
-    change (enc_flds false dhf) with ([115; 97; 100; 117] ++ ([109; 112; 0; 0] ++ enc_flds false (tl dhf))).
-    rewrite <- !app_assoc. rewrite (read_of_exact' [115; 97; 100; 117]) by reflexivity. reflexivity.
-  Qed.
+  (** the word that follows the partition header block is not the next magic number *)
+  Hypothesis Hbreak : get false (read_of after_block 0 4) <> next_magic l.
 
-  Lemma vmn : verify_magic_number rd 0 0 = Ok bs.
+  Lemma vmn : verify_magic_number rd 0 base = Ok (base + bs).
   Proof.
     unfold verify_magic_number. destruct bs_facts as [[Hb1 Hb2] [Ebs Hn]].
-    destruct (sw_magic _ _ Hwf) as [Hm0 Hbreak].
-    assert (Hprev : get32 false (rd 0 (0 + SPH_SIZE) 4) 0 = sl_magic0 l).
-    { rewrite rd_F, get32_read by lia. rewrite F_magic. unfold SPH_SIZE. rewrite N.add_0_l, N.add_0_r.
-      rewrite (read_of_section' (enc_flds false phf) (put32 false (sl_magic0 l)));
-        [unfold put32; apply get_put; cbn; lia | rewrite len_enc_flds; reflexivity | now rewrite len_put32]. }
+    pose proof (sw_magic0 _ _ Hwf) as Hm0.
+    assert (Hprev : get32 false (rd 0 (base + SPH_SIZE) 4) 0 = sl_magic0 l).
+    { rewrite Hrd, get32_read by lia. rewrite F_magic. unfold SPH_SIZE, base. rewrite N.add_0_r.
+      rewrite (read_of_section' (pre ++ enc_flds false phf) (put32 false (sl_magic0 l)));
+        [unfold put32; apply get_put; cbn; lia | rewrite len_app, len_enc_flds; reflexivity | now rewrite len_put32]. }
     rewrite Hprev.
-    pose proof (magic_loop_run F (n - 1) (sl_magic0 l) (enc_flds false phf) (DHb ++ SUBb ++ MB ++ DB ++ data)
+    pose proof (magic_loop_run rd 0 F Hrd (n - 1) (sl_magic0 l) (pre ++ enc_flds false phf) after_block
                   (N.to_nat 262144) F_magic) as Hrun.
-    rewrite len_enc_flds in Hrun. change (flds_len phf) with 168 in Hrun.
-    unfold rd, SPH_SIZE. rewrite N.add_0_l. rewrite Hrun.
-    - replace (168 + 4 + 4 * N.of_nat (n - 1)) with bs by lia.
-      rewrite N.sub_0_r, is_pow2_bs. reflexivity.
+    rewrite len_app, len_enc_flds in Hrun. change (flds_len phf) with 168 in Hrun. fold base in Hrun.
+    unfold SPH_SIZE. rewrite Hrun.
+    - replace (base + 168 + 4 + 4 * N.of_nat (n - 1)) with (base + bs) by lia.
+      replace (base + bs - base) with bs by lia. rewrite is_pow2_bs. reflexivity.
     - change (2^20) with 1048576 in Hb2. lia.
     - exact Hm0.
-    - rewrite dh_starts. replace (S (n - 1)) with (S (N.to_nat ((sl_block_size l - 168) / 4 - 1))); [exact Hbreak |].
+    - replace (S (n - 1)) with (S (N.to_nat ((sl_block_size l - 168) / 4 - 1))); [exact Hbreak |].
       fold bs. unfold n. lia.
   Qed.
 
@@ -303,47 +320,61 @@ Section Single.
 
   Lemma cpus_facts : cpus <> 0 /\ cpus < 2^16 /\ N.to_nat cpus = length (sl_lma l).
   Proof.
-    destruct (sw_cpus _ _ Hwf) as [Hne Hlt]. unfold cpus, nr_cpus in *.
-    split; [| split; [exact Hlt | lia]]. destruct (sl_lma l); [contradiction | cbn; lia].
+    destruct (sw_cpus _ _ Hwf) as [Hne Hlt]. unfold cpus, nr_cpus in Hlt |- *.
+    split; [| split; [exact Hlt | lia]].
+    intro E. apply Hne. apply length_zero_iff_nil. lia.
   Qed.
 
-  Lemma setup_arch_ok : setup_arch rd 0 (bs + bs) cpus = Ok ptr.
+  Lemma setup_arch_ok : setup_arch rd 0 (hdr_pos + bs) cpus = Ok ptr.
   Proof.
     unfold setup_arch. destruct cpus_facts as [Hnz [Hlt Hlen]].
     destruct (sw_cpusz _ _ Hwf) as [Hcs Hprod]. fold cpus in Hprod.
     destruct (N.eqb_spec cpus 0); [contradiction |].
-    assert (Hsz : get32 false (rd 0 (bs + bs) 4) 0 = sl_cpu_size l * cpus).
-    { rewrite <- (N.add_0_r (bs + bs)). rewrite rd_subc by (rewrite len_subc; lia).
+    assert (Hsz : get32 false (rd 0 (hdr_pos + bs) 4) 0 = sl_cpu_size l * cpus).
+    { rewrite <- (N.add_0_r (hdr_pos + bs)). rewrite rd_subc by (rewrite len_subc; lia).
       unfold subc. rewrite (read_of_exact' (put32 false (sl_cpu_size l * cpus))) by (now rewrite len_put32).
       unfold get32. rewrite sub_all. unfold put32. apply get_put. cbn. lia. }
     rewrite Hsz, N.div_mul by assumption.
     destruct (N.ltb_spec (sl_cpu_size l) CPU_STATE_SIZE); [unfold CPU_STATE_SIZE in *; lia |].
     f_equal. rewrite Hlen.
-    pose proof (cpu_loop_run F l (sl_lma l)
-                  (PHb ++ DHb ++ put32 false (sl_cpu_size l * cpus) ++ zeros (16 * cpus))
-                  (zeros (sl_sub_blocks l * bs - len subc) ++ MB ++ DB ++ data) Hcs) as Hrun.
+    pose proof (cpu_loop_run rd 0 F l Hrd (sl_lma l)
+                  (pre ++ PHb ++ mid ++ DHb ++ put32 false (sl_cpu_size l * cpus) ++ zeros (16 * cpus))
+                  (zeros (sl_sub_blocks l * bs - len subc) ++ MB ++ DB ++ d1) Hcs) as Hrun.
     rewrite !len_app, len_PHb, len_DHb, len_put32, len_zeros in Hrun.
-    replace (bs + bs + 4 + cpus * 16) with (bs + (bs + (4 + 16 * cpus))) by lia.
+    replace (hdr_pos + bs + 4 + cpus * 16) with (len pre + (bs + (len mid + (bs + (4 + 16 * cpus)))))
+      by (unfold hdr_pos, base, m; lia).
     apply Hrun. rewrite F_sections. unfold SUBb, subc. now rewrite <- !app_assoc.
   Qed.
 
-  (** ** [open_common] and [sd_open] *)
-  Definition ext0 : extent := {| ex_pos := data_pos; ex_len := len data; ex_fidx := 0 |}.
-
-  Lemma data_pos_is : data_pos = bs + body_len l.
-  Proof. unfold data_pos, bmp_pos, body_len. fold bs. lia. Qed.
+  (** ** the header fields *)
+  Hypothesis Hvol : len vol = 16.
+  Hypothesis Hdisk : disk < 2^32.
+  Hypothesis Hused : used < 2^64.
 
   Lemma sph_fields :
     has_sig (enc_flds false phf) = true /\
     get64 false (enc_flds false phf) 160 = used /\
-    get32 false (enc_flds false phf) 152 = 0.
+    get32 false (enc_flds false phf) 152 = disk /\
+    sub (enc_flds false phf) 88 32 ++ sub (enc_flds false phf) 136 16 = sl_ids l /\
+    sub (enc_flds false phf) 120 16 = vol.
   Proof.
-    pose proof used_small. unfold has_sig.
+    unfold has_sig.
     rewrite (get32_flds false phf 0 1969512819) by (try reflexivity; cbn; lia).
     rewrite (get32_flds false phf 4 28781) by (try reflexivity; cbn; lia).
-    split; [reflexivity |]. split.
-    - apply get64_flds; [reflexivity | assumption | cbn; lia].
-    - apply get32_flds; [reflexivity | lia | cbn; lia].
+    split; [reflexivity |]. split; [apply get64_flds; [reflexivity | assumption | cbn; lia] |].
+    split; [apply get32_flds; [reflexivity | assumption | cbn; lia] |].
+    rewrite (sub_flds false phf 88 32 (sub (sl_ids l) 0 32)) by (try reflexivity; cbn; lia).
+    rewrite (sub_flds false phf 136 16 (sub (sl_ids l) 32 16)) by (try reflexivity; cbn; lia).
+    rewrite (sub_flds false phf 120 16 vol) by (try reflexivity; cbn; lia).
+    pose proof (sw_ids _ _ Hwf) as Hi.
+    assert (H32 : len (sub (sl_ids l) 0 32) = 32).
+    { unfold len at 1. rewrite sub_length by (rewrite Hi; lia). reflexivity. }
+    assert (H16 : len (sub (sl_ids l) 32 16) = 16).
+    { unfold len at 1. rewrite sub_length by (rewrite Hi; lia). reflexivity. }
+    rewrite !fit_exact by assumption. split; [| reflexivity].
+    unfold sub. cbn [N.to_nat skipn]. change (Pos.to_nat 32) with 32%nat. change (Pos.to_nat 16) with 16%nat.
+    rewrite <- (firstn_skipn 32 (sl_ids l)) at 3. f_equal.
+    apply firstn_all2. rewrite skipn_length. unfold len in Hi. lia.
   Qed.
 
   Lemma dh_fields :
@@ -374,27 +405,48 @@ Section Single.
         [reflexivity | unfold dhf; now rewrite Hv1 | assumption | cbn; lia].
   Qed.
 
+  (** ** the tail of [open_common] *)
+  Definition ext0 : extent := {| ex_pos := data_pos; ex_len := len d1; ex_fidx := 0 |}.
+
+  Lemma finish_ok a :
+    pa_ptr a = None ->
+    oc_finish rd 0 bs used a hdr_pos =
+    Ok {| pa_block_size := pa_block_size a; pa_ids := pa_ids a; pa_vol := pa_vol a; pa_seen := pa_seen a;
+          pa_ext := set_nth (pa_ext a) 0 ext0; pa_ptr := Some ptr; pa_max_pfn := sl_max_mapnr l;
+          pa_bmp_pos := bmp_pos |}.
+  Proof.
+    intro Hp. unfold oc_finish. rewrite rd_dh. destruct dh_fields as [Hbs [Hcp [Hmx [Hsb [Hbm Hdm]]]]].
+    rewrite Hbs, N.eqb_refl. cbn [negb]. rewrite Hp, Hcp, setup_arch_ok, Hmx, Hsb, Hbm, Hdm.
+    fold bmp_pos. fold data_pos.
+    assert (Hlen : (used + 2^64 - data_pos) mod 2^64 = len d1).
+    { rewrite data_pos_is. unfold used, hdr_pos.
+      replace (base + bs + m + body_len l + len d1 + 2^64 - (base + bs + m + body_len l))
+        with (len d1 + 1 * 2^64) by lia.
+      rewrite N.mod_add by discriminate. apply N.mod_small. unfold used in Hused. lia. }
+    rewrite Hlen. reflexivity.
+  Qed.
+
+  (** ** the tail of [sd_open]: [read_bitmap] and the state *)
   Definition nbytes : nat := N.to_nat (sl_dumpable_blocks l * bs).
 
-  Theorem sd_open_single :
-    sd_open rd 1 = Ok (the_state img nbytes [ext0] (sl_max_mapnr l) bs ptr 1).
+  Lemma open_tail a rest nf :
+    pa_ext a = ext0 :: rest -> pa_bmp_pos a = bmp_pos -> pa_max_pfn a = sl_max_mapnr l ->
+    pa_block_size a = bs -> pa_ptr a = Some ptr ->
+    (match pa_ext a with
+     | [] => Err ERR_UNMODELLED
+     | e0 :: _ =>
+         let bmp_len := ex_pos e0 - pa_bmp_pos a in
+         let max_bmp_pfn := bmp_len * 8 in
+         let max_pfn := if max_bmp_pfn <? pa_max_pfn a then max_bmp_pfn else pa_max_pfn a in
+         let bm := rd (ex_fidx e0) (pa_bmp_pos a) bmp_len in
+         Ok {| sd_block_size := pa_block_size a;
+               sd_ptr_size := match pa_ptr a with Some p => p | None => 0 end;
+               sd_max_pfn := max_pfn;
+               sd_regions := regions_from_bitmap true bm 0 max_bmp_pfn 0 SADUMP_PAGE_SIZE;
+               sd_ext := pa_ext a; sd_nfiles := nf |}
+     end) = Ok (the_state img nbytes (ext0 :: rest) (sl_max_mapnr l) bs ptr nf).
   Proof.
-    unfold sd_open. cbn [N.of_nat Pos.of_succ_nat probe_files repeat].
-    unfold probe_file. rewrite sph_is.
-    destruct sph_fields as [Hsig [Hused Hsds]]. rewrite Hsig.
-    unfold open_common. cbn [negb]. rewrite vmn. rewrite N.sub_0_r.
-    change (0 =? 0) with true. cbn [negb andb]. cbv iota.
-    rewrite Hsds. change (0 =? 0) with true. cbv iota. change (1 <? 1) with false. cbv iota.
-    cbn [pa_block_size pa_ptr pa_ids pa_vol pa_seen pa_ext pa_max_pfn pa_bmp_pos].
-    rewrite rd_dh. destruct dh_fields as [Hbs [Hcp [Hmx [Hsb [Hbm Hdm]]]]].
-    rewrite Hbs, N.eqb_refl. cbn [negb]. rewrite Hcp, setup_arch_ok, Hmx, Hsb, Hbm, Hdm, Hused.
-    cbn [set_nth pa_ext pa_bmp_pos pa_max_pfn pa_block_size pa_ptr].
-    fold bmp_pos. fold data_pos.
-    assert (Hlen : (used + 2^64 - data_pos) mod 2^64 = len data).
-    { pose proof used_small. unfold used. rewrite data_pos_is.
-      replace (bs + body_len l + len data + 2^64 - (bs + body_len l)) with (len data + 1 * 2^64) by lia.
-      rewrite N.mod_add by discriminate. apply N.mod_small. unfold used in H. lia. }
-    rewrite Hlen. cbn [ex_pos ex_fidx].
+    intros He Hb Hm Hbs Hp. rewrite He, Hb, Hm, Hbs, Hp. cbn [ext0 ex_pos ex_fidx].
     replace (data_pos - bmp_pos) with (bs * sl_dumpable_blocks l) by (unfold data_pos; lia).
     destruct (sw_cover _ _ Hwf) as [Hcov _]. fold bs in Hcov.
     destruct (N.ltb_spec (bs * sl_dumpable_blocks l * 8) (sl_max_mapnr l)); [lia |].
@@ -402,9 +454,145 @@ Section Single.
     replace (N.of_nat (8 * N.to_nat (sl_dumpable_blocks l * bs))) with (bs * sl_dumpable_blocks l * 8) by lia.
     reflexivity.
   Qed.
+
+  (** ** [open_common] on this file *)
+  Lemma beqb_refl x : SadumpModel.bytes_eqb x x = true.
+  Proof. apply (bytes_eqb_refl_gen SadumpModel.bytes_eqb). reflexivity. Qed.
+
+  Definition acc_head (a : probe_acc) : probe_acc :=
+    {| pa_block_size := bs; pa_ids := sl_ids l; pa_vol := pa_vol a; pa_seen := pa_seen a;
+       pa_ext := pa_ext a; pa_ptr := pa_ptr a; pa_max_pfn := pa_max_pfn a; pa_bmp_pos := pa_bmp_pos a |}.
+
+  (** a single partition or a media backup: no disk-set bookkeeping *)
+  Lemma oc_plain a smh :
+    mid = [] -> (disk = 0 \/ smh <> None) ->
+    match smh with Some mh => sub mh 0 48 = sl_ids l | None => True end ->
+    pa_ptr a = None ->
+    open_common rd 1 0 a smh (enc_flds false phf) base =
+    Ok {| pa_block_size := bs; pa_ids := sl_ids l; pa_vol := pa_vol a; pa_seen := pa_seen a;
+          pa_ext := set_nth (pa_ext a) 0 ext0; pa_ptr := Some ptr; pa_max_pfn := sl_max_mapnr l;
+          pa_bmp_pos := bmp_pos |}.
+  Proof.
+    intros Hmid Hsds Hm Hp. unfold open_common.
+    destruct sph_fields as [_ [Hu [Hd [Hids Hv]]]]. rewrite Hids, Hu, Hd.
+    assert (Hmok : (match smh with Some mh => SadumpModel.bytes_eqb (sub mh 0 48) (sl_ids l) | None => true end) = true).
+    { destruct smh as [mh |]; [rewrite Hm; apply beqb_refl | reflexivity]. }
+    rewrite Hmok. cbn [negb]. rewrite vmn.
+    replace (base + bs - base) with bs by lia.
+    change (0 =? 0) with true. cbn [negb andb]. cbv iota.
+    assert (Hz : (match smh with Some _ => 0 | None => disk end) = 0).
+    { destruct smh; [reflexivity |]. destruct Hsds as [-> | H]; [reflexivity | contradiction]. }
+    rewrite Hz. change (0 =? 0) with true. cbv iota. change (1 <? 1) with false. cbv iota.
+    fold (acc_head a).
+    pose proof (finish_ok (acc_head a) Hp) as Hf. unfold hdr_pos, m in Hf. rewrite Hmid in Hf.
+    rewrite len_nil, N.add_0_r in Hf. rewrite Hf. unfold acc_head. reflexivity.
+  Qed.
+
+  (** disk 1 of a set: volume id, disk set header, then as above *)
+  Lemma oc_set a nfiles vol' :
+    disk = 1 -> 1 <= nfiles -> pa_ptr a = None -> nth 0 (pa_seen a) false = false ->
+    init_disk_set rd 0 (base + bs) bs nfiles
+      {| pa_block_size := bs; pa_ids := sl_ids l; pa_vol := set_nth (pa_vol a) 0 (Some vol);
+         pa_seen := pa_seen a; pa_ext := pa_ext a; pa_ptr := pa_ptr a; pa_max_pfn := pa_max_pfn a;
+         pa_bmp_pos := pa_bmp_pos a |} = Ok (hdr_pos, vol') ->
+    open_common rd nfiles 0 a None (enc_flds false phf) base =
+    Ok {| pa_block_size := bs; pa_ids := sl_ids l; pa_vol := vol'; pa_seen := set_nth (pa_seen a) 0 true;
+          pa_ext := set_nth (pa_ext a) 0 ext0; pa_ptr := Some ptr; pa_max_pfn := sl_max_mapnr l;
+          pa_bmp_pos := bmp_pos |}.
+  Proof.
+    intros Hd1 Hnf Hp Hseen Hinit. unfold open_common.
+    destruct sph_fields as [_ [Hu [Hd [Hids Hv]]]]. rewrite Hids, Hu, Hd, Hv.
+    cbn [negb]. rewrite vmn. replace (base + bs - base) with bs by lia.
+    change (0 =? 0) with true. cbn [negb andb]. cbv iota.
+    rewrite Hd1. change (1 =? 0) with false. cbv iota.
+    destruct (N.ltb_spec nfiles 1); [lia |].
+    change (N.to_nat (1 - 1)) with 0%nat.
+    cbn [pa_seen pa_vol pa_block_size pa_ids pa_ext pa_ptr pa_max_pfn pa_bmp_pos].
+    rewrite Hseen. unfold process_vol_id. cbn [pa_seen pa_vol]. rewrite Hseen.
+    change (1 <? 1) with false. cbv iota.
+    cbn [pa_seen pa_vol pa_block_size pa_ids pa_ext pa_ptr pa_max_pfn pa_bmp_pos].
+    rewrite Hinit.
+    match goal with |- oc_finish rd 0 bs used ?acc hdr_pos = _ =>
+      pose proof (finish_ok acc Hp) as Hf end.
+    rewrite Hf. reflexivity.
+  Qed.
+End Head.
+
+Lemma after_block_plain l img d1 : get false (read_of (after_block l img [] d1) 0 4) = 1969512819.
+Proof.
+  unfold after_block, DHb. cbn [app].
+  change (enc_flds false (dhf l)) with ([115; 97; 100; 117] ++ ([109; 112; 0; 0] ++ enc_flds false (tl (dhf l)))).
+  rewrite <- !app_assoc. rewrite (read_of_exact' [115; 97; 100; 117]) by reflexivity. reflexivity.
+Qed.
+
+Definition a0 (nfiles : nat) : probe_acc :=
+  {| pa_block_size := 0; pa_ids := []; pa_vol := repeat None nfiles; pa_seen := repeat false nfiles;
+     pa_ext := repeat {| ex_pos := 0; ex_len := 0; ex_fidx := 0 |} nfiles;
+     pa_ptr := None; pa_max_pfn := 0; pa_bmp_pos := 0 |}.
+
+(** * a single partition *)
+Record sd_wf (l : sd_layout) (img : image) : Prop := {
+  sw_base : sd_wf_base l img;
+  sw_kind : sl_kind l = SdSingle;
+  sw_vol : len (nth 0 (sl_vol_ids l) []) = 16;
+  sw_magic : 1969512819 <> next_magic l;
+  sw_size : len (hd [] (encode_sadump l img)) < 2^64
+}.
+
+Section Single.
+  Variable l : sd_layout.
+  Variable img : image.
+  Hypothesis Hwf : sd_wf l img.
+
+  Let bs := sl_block_size l.
+  Let data := page_data img.
+  Let vol := nth 0 (sl_vol_ids l) [].
+  Let F := part_header l 0 vol (bs + body_len l + len data) ++ body l img ++ data.
+  Let rd := read_files [F].
+
+  Lemma enc_single : encode_sadump l img = [F].
+  Proof. unfold encode_sadump. rewrite (sw_kind _ _ Hwf). reflexivity. Qed.
+
+  Let usedH := len (@nil N) + bs + len (@nil N) + body_len l + len data.
+
+  Lemma usedH_is : usedH = bs + body_len l + len data.
+  Proof. unfold usedH. rewrite len_nil. lia. Qed.
+
+  Lemma rd_head off k : rd 0 off k = read_of ([] ++ part_header l 0 vol usedH ++ [] ++ body l img ++ data) off k.
+  Proof. rewrite usedH_is. reflexivity. Qed.
+
+  Lemma used_small : usedH < 2^64.
+  Proof.
+    pose proof (sw_size _ _ Hwf) as H. rewrite enc_single in H. cbn [hd] in H. unfold F in H.
+    rewrite !len_app in H.
+    rewrite (len_body l img [] [] [] (sw_base _ _ Hwf)) in H.
+    pose proof (len_PHb l img [] [] data vol 0 (sw_base _ _ Hwf)) as Hp. unfold PHb in Hp.
+    change (len (@nil N) + sl_block_size l + len (@nil N) + body_len l + len data) with usedH in Hp.
+    rewrite usedH_is in Hp. rewrite Hp in H. rewrite usedH_is. fold bs in H. lia.
+  Qed.
+
+  Lemma break_single : get false (read_of (after_block l img [] data) 0 4) <> next_magic l.
+  Proof. rewrite after_block_plain. exact (sw_magic _ _ Hwf). Qed.
+
+  Theorem sd_open_single :
+    sd_open rd 1 =
+    Ok (the_state img (nbytes l) [ext0 l [] [] data] (sl_max_mapnr l) bs (ptr l) 1).
+  Proof.
+    pose proof (sw_base _ _ Hwf) as Hb. pose proof (sw_vol _ _ Hwf) as Hv. fold vol in Hv.
+    assert (Hd : 0 < 2^32) by reflexivity.
+    unfold sd_open. cbn [N.of_nat Pos.of_succ_nat probe_files]. fold (a0 1).
+    unfold probe_file.
+    pose proof (sph_is l img rd [] [] data vol 0 rd_head) as Hs. change (len []) with 0 in Hs.
+    rewrite Hs.
+    destruct (sph_fields l img [] [] data vol 0 Hb break_single Hv Hd used_small) as [Hsig _].
+    rewrite Hsig.
+    pose proof (oc_plain l img rd [] [] data vol 0 Hb rd_head break_single Hv Hd used_small (a0 1) None
+                  eq_refl (or_introl eq_refl) I eq_refl) as Ho.
+    change (len []) with 0 in Ho. rewrite Ho. cbv beta iota.
+    apply (open_tail l img rd [] [] data vol 0 Hb rd_head break_single Hv Hd used_small _ []); reflexivity.
+  Qed.
 End Single.
 
-(** * closed statement: single-partition dumps *)
 Theorem sadump_single_roundtrip l img :
   sd_wf l img ->
   exists st, sd_open (read_files (encode_sadump l img)) 1 = Ok st /\
@@ -414,16 +602,762 @@ Theorem sadump_single_roundtrip l img :
       sd_read_page (read_files (encode_sadump l img)) st z pfn =
       spec_read_page img SADUMP_PAGE_SIZE (sl_max_mapnr l) z pfn.
 Proof.
-  intro Hwf. rewrite (enc_single l img Hwf).
-  exists (the_state img (nbytes l) [ext0 l img] (sl_max_mapnr l) (sl_block_size l) (ptr l) 1).
-  split; [exact (sd_open_single l img Hwf) |].
+  intro Hwf. rewrite (enc_single l img Hwf). pose proof (sw_base _ _ Hwf) as Hb.
+  eexists. split; [exact (sd_open_single l img Hwf) |].
   split; [reflexivity |]. split; [reflexivity |]. split; [reflexivity |].
   intros z pfn. apply sadump_page_path.
-  - exact (sw_pages _ _ Hwf).
-  - destruct (sw_cover _ _ Hwf) as [H1 H2]. unfold nbytes. lia.
+  - exact (sw_pages _ _ Hb).
+  - destruct (sw_cover _ _ Hb) as [H1 H2]. unfold nbytes. lia.
   - intros k Hk.
-    pose proof (len_page_data img (sw_pages _ _ Hwf)) as Hl.
-    apply (single_extent_ok _ (page_data img) 0 (data_pos l)).
-    + intros o n Hon. exact (rd_data l img Hwf o n Hon).
+    pose proof (len_page_data img (sw_pages _ _ Hb)) as Hl.
+    apply (single_extent_ok _ (page_data img) 0 (data_pos l [] [])).
+    + intros o n Hon. apply (rd_data l img _ [] [] (page_data img) (nth 0 (sl_vol_ids l) []) 0 Hb).
+      * apply rd_head.
+      * exact Hon.
     + rewrite Hl. lia.
+Qed.
+
+(** * a media backup: the same behind a 4096-byte media header *)
+Record sd_wf_media (l : sd_layout) (img : image) : Prop := {
+  sm_base : sd_wf_base l img;
+  sm_kind : sl_kind l = SdMedia;
+  sm_vol : len (nth 0 (sl_vol_ids l) []) = 16;
+  sm_magic : 1969512819 <> next_magic l;
+  (* the file must not look like a partition header where the media header is *)
+  sm_nosig : has_sig (read_of (media_header l) 0 168) = false;
+  sm_size : len (hd [] (encode_sadump l img)) < 2^64
+}.
+
+Section Media.
+  Variable l : sd_layout.
+  Variable img : image.
+  Hypothesis Hwf : sd_wf_media l img.
+
+  Let bs := sl_block_size l.
+  Let data := page_data img.
+  Let vol := nth 0 (sl_vol_ids l) [].
+  Let MH := media_header l.
+  Let F := MH ++ part_header l 0 vol (4096 + bs + body_len l + len data) ++ body l img ++ data.
+  Let rd := read_files [F].
+
+  Lemma enc_media : encode_sadump l img = [F].
+  Proof. unfold encode_sadump. rewrite (sm_kind _ _ Hwf). reflexivity. Qed.
+
+  Lemma len_MH : len MH = 4096. Proof. apply len_fit. Qed.
+
+  Let usedH := len MH + bs + len (@nil N) + body_len l + len data.
+
+  Lemma usedM_is : usedH = 4096 + bs + body_len l + len data.
+  Proof. unfold usedH. rewrite len_nil, len_MH. lia. Qed.
+
+  Lemma rd_headM off k : rd 0 off k = read_of (MH ++ part_header l 0 vol usedH ++ [] ++ body l img ++ data) off k.
+  Proof. rewrite usedM_is. reflexivity. Qed.
+
+  Lemma used_smallM : usedH < 2^64.
+  Proof.
+    pose proof (sm_size _ _ Hwf) as H. rewrite enc_media in H. cbn [hd] in H. unfold F in H.
+    rewrite !len_app in H.
+    rewrite (len_body l img [] [] [] (sm_base _ _ Hwf)) in H.
+    pose proof (len_PHb l img MH [] data vol 0 (sm_base _ _ Hwf)) as Hp. unfold PHb in Hp.
+    change (len MH + sl_block_size l + len (@nil N) + body_len l + len data) with usedH in Hp.
+    rewrite usedM_is in Hp. rewrite Hp, len_MH in H. rewrite usedM_is. fold bs in H. lia.
+  Qed.
+
+  Lemma break_media : get false (read_of (after_block l img [] data) 0 4) <> next_magic l.
+  Proof. rewrite after_block_plain. exact (sm_magic _ _ Hwf). Qed.
+
+  (** the media header repeats the ids of the partition header *)
+  Lemma media_ids : sub (rd 0 0 SMH_SIZE) 0 48 = sl_ids l.
+  Proof.
+    pose proof (sw_ids _ _ (sm_base _ _ Hwf)) as Hi.
+    unfold SMH_SIZE. rewrite rd_headM. rewrite sub_read_of by lia. rewrite N.add_0_l.
+    rewrite read_of_prefix by (rewrite len_MH; lia).
+    unfold MH, media_header.
+    set (fs := [FB 32 (sub (sl_ids l) 0 32); FB 16 (sub (sl_ids l) 32 16); FB 1 [1]; FB 1 [0]; FB 1 [0]; FB 1 [1]]).
+    rewrite fit_small by (rewrite len_enc_flds; cbn; lia).
+    rewrite read_of_prefix by (rewrite len_enc_flds; cbn; lia).
+    change 48 with (32 + 16). rewrite read_of_add.
+    rewrite <- (app_nil_r (enc_flds false fs)).
+    pose proof (read_fld false fs [] 0 (FB 32 (sub (sl_ids l) 0 32)) eq_refl) as R1.
+    pose proof (read_fld false fs [] 32 (FB 16 (sub (sl_ids l) 32 16)) eq_refl) as R2.
+    cbn [fld_len enc_fld] in R1, R2. change (0 + 32) with 32. rewrite R1, R2.
+    assert (H32 : len (sub (sl_ids l) 0 32) = 32).
+    { unfold len at 1. rewrite sub_length by (rewrite Hi; lia). reflexivity. }
+    assert (H16 : len (sub (sl_ids l) 32 16) = 16).
+    { unfold len at 1. rewrite sub_length by (rewrite Hi; lia). reflexivity. }
+    rewrite !fit_exact by assumption.
+    unfold sub. cbn [N.to_nat skipn]. change (Pos.to_nat 32) with 32%nat. change (Pos.to_nat 16) with 16%nat.
+    rewrite <- (firstn_skipn 32 (sl_ids l)) at 3. f_equal.
+    apply firstn_all2. rewrite skipn_length. unfold len in Hi. lia.
+  Qed.
+
+  Theorem sd_open_media :
+    sd_open rd 1 =
+    Ok (the_state img (nbytes l) [ext0 l MH [] data] (sl_max_mapnr l) bs (ptr l) 1).
+  Proof.
+    pose proof (sm_base _ _ Hwf) as Hb. pose proof (sm_vol _ _ Hwf) as Hv. fold vol in Hv.
+    assert (Hd : 0 < 2^32) by reflexivity.
+    unfold sd_open. cbn [N.of_nat Pos.of_succ_nat probe_files]. fold (a0 1).
+    unfold probe_file.
+    assert (Hnosig : has_sig (rd 0 0 SPH_SIZE) = false).
+    { rewrite rd_headM. unfold SPH_SIZE. rewrite read_of_prefix by (rewrite len_MH; lia).
+      exact (sm_nosig _ _ Hwf). }
+    rewrite Hnosig.
+    pose proof (sph_is l img rd MH [] data vol 0 rd_headM) as Hs. rewrite len_MH in Hs.
+    unfold DEFAULT_BLOCK_SIZE. rewrite Hs.
+    destruct (sph_fields l img MH [] data vol 0 Hb break_media Hv Hd used_smallM) as [Hsig _].
+    rewrite Hsig.
+    assert (Hne : Some (rd 0 0 SMH_SIZE) <> None) by (intro Hx; inversion Hx).
+    pose proof (oc_plain l img rd MH [] data vol 0 Hb rd_headM break_media Hv Hd used_smallM (a0 1)
+                  (Some (rd 0 0 SMH_SIZE)) eq_refl (or_intror Hne) media_ids eq_refl) as Ho.
+    rewrite len_MH in Ho. rewrite Ho. cbv beta iota.
+    apply (open_tail l img rd MH [] data vol 0 Hb rd_headM break_media Hv Hd used_smallM _ []); reflexivity.
+  Qed.
+End Media.
+
+Theorem sadump_media_roundtrip l img :
+  sd_wf_media l img ->
+  exists st, sd_open (read_files (encode_sadump l img)) 1 = Ok st /\
+    sd_ptr_size st = (if existsb (fun b => b) (sl_lma l) then 8 else 4) /\
+    sd_max_pfn st = sl_max_mapnr l /\ sd_block_size st = sl_block_size l /\
+    forall z pfn,
+      sd_read_page (read_files (encode_sadump l img)) st z pfn =
+      spec_read_page img SADUMP_PAGE_SIZE (sl_max_mapnr l) z pfn.
+Proof.
+  intro Hwf. rewrite (enc_media l img Hwf). pose proof (sm_base _ _ Hwf) as Hb.
+  eexists. split; [exact (sd_open_media l img Hwf) |].
+  split; [reflexivity |]. split; [reflexivity |]. split; [reflexivity |].
+  intros z pfn. apply sadump_page_path.
+  - exact (sw_pages _ _ Hb).
+  - destruct (sw_cover _ _ Hb) as [H1 H2]. unfold nbytes. lia.
+  - intros k Hk.
+    pose proof (len_page_data img (sw_pages _ _ Hb)) as Hl.
+    apply (single_extent_ok _ (page_data img) 0 (data_pos l (media_header l) [])).
+    + intros o n Hon. apply (rd_data l img _ (media_header l) [] (page_data img) (nth 0 (sl_vol_ids l) []) 0 Hb).
+      * apply rd_headM.
+      * exact Hon.
+    + rewrite Hl. lia.
+Qed.
+
+(** * disk sets *)
+
+(** ** list bookkeeping of [open_common] *)
+Lemma set_nth_length {A} (x : A) : forall l k, length (SadumpModel.set_nth l k x) = length l.
+Proof. induction l as [| h t IH]; intros [| k]; cbn [SadumpModel.set_nth length]; auto. Qed.
+
+Lemma nth_set_nth_eq {A} (x d : A) : forall l k, (k < length l)%nat -> nth k (SadumpModel.set_nth l k x) d = x.
+Proof.
+  induction l as [| h t IH]; intros [| k] H; cbn [SadumpModel.set_nth nth length] in *; try lia; [reflexivity |].
+  apply IH. lia.
+Qed.
+
+Lemma nth_set_nth_ne {A} (x d : A) : forall l k j, j <> k -> nth j (SadumpModel.set_nth l k x) d = nth j l d.
+Proof.
+  induction l as [| h t IH]; intros [| k] [| j] H; cbn [SadumpModel.set_nth nth]; try reflexivity; try lia.
+  apply IH. lia.
+Qed.
+
+Lemma set_nth_app {A} (x y : A) a b : SadumpModel.set_nth (a ++ y :: b) (length a) x = a ++ x :: b.
+Proof. induction a as [| h t IH]; cbn [app length SadumpModel.set_nth]; [reflexivity | now rewrite IH]. Qed.
+
+Lemma set_nth_app' {A} (x y : A) a b k : length a = k -> SadumpModel.set_nth (a ++ y :: b) k x = a ++ x :: b.
+Proof. intros <-. apply set_nth_app. Qed.
+
+Lemma map_seq_head {A} (f : nat -> A) m : (1 <= m)%nat -> map f (seq 0 m) = f 0%nat :: tl (map f (seq 0 m)).
+Proof. destruct m; [lia | reflexivity]. Qed.
+
+Lemma map_fst_combine {A B} : forall (a : list A) (b : list B), length a = length b -> map fst (combine a b) = a.
+Proof. induction a as [| x a IH]; intros [| y b] H; cbn in *; try lia; [reflexivity |]. f_equal. apply IH. lia. Qed.
+
+Lemma map_snd_combine {A B} : forall (a : list A) (b : list B), length a = length b -> map snd (combine a b) = b.
+Proof. induction a as [| x a IH]; intros [| y b] H; cbn in *; try lia; [reflexivity |]. f_equal. apply IH. lia. Qed.
+
+Lemma set_nth_repeat0 {A} (x y : A) m : (1 <= m)%nat ->
+  SadumpModel.set_nth (repeat x m) 0 y = y :: repeat x (m - 1).
+Proof. destruct m; [lia |]. intros _. cbn [repeat SadumpModel.set_nth]. replace (S m - 1)%nat with m by lia. reflexivity. Qed.
+
+Lemma nth_in_tl {A} (l : list A) d k : (1 <= k < length l)%nat -> In (nth k l d) (tl l).
+Proof.
+  destruct l as [| h t]; [cbn; lia |]. destruct k; [lia |]. cbn [length tl nth]. intro H. apply nth_In. lia.
+Qed.
+
+(** ** a later disk of the set: partition header, then page data *)
+Definition phfG (l : sd_layout) (disk : N) (vol : bytes) (used : N) : list fld :=
+  [ F32 1969512819; F32 28781; F32 1; F32 0; F32 0; F32 0; FB 64 [];
+    FB 32 (sub (sl_ids l) 0 32); FB 16 vol; FB 16 (sub (sl_ids l) 32 16);
+    F32 disk; F32 0; F64 used ].
+
+Section Later.
+  Variable l : sd_layout.
+  Variable img : image.
+  Variable rd : N -> N -> N -> bytes.
+  Variable fidx nfiles : N.
+  Variable vol dk : bytes.
+  Hypothesis Hb : sd_wf_base l img.
+
+  Let bs := sl_block_size l.
+  Let used := bs + len dk.
+  Let disk := fidx + 1.
+  Let F := part_header l disk vol used ++ dk.
+  Let n := N.to_nat ((bs - 168) / 4).
+
+  Hypothesis Hrd : forall off k, rd fidx off k = read_of F off k.
+
+  Lemma phL_is : part_header l disk vol used = enc_flds false (phfG l disk vol used) ++ magic_seq n (sl_magic0 l).
+  Proof. reflexivity. Qed.
+
+  Lemma len_phL : len (part_header l disk vol used) = bs.
+  Proof.
+    rewrite phL_is, len_app, len_enc_flds, len_magic_seq.
+    destruct (bs_facts l img [] [] [] Hb) as [_ [E _]]. fold bs n in E. cbn [flds_len fld_len phfG]. lia.
+  Qed.
+
+  Lemma sphL_is : rd fidx 0 SPH_SIZE = enc_flds false (phfG l disk vol used).
+  Proof.
+    rewrite Hrd. unfold F. rewrite phL_is, <- !app_assoc. apply read_of_exact'. rewrite len_enc_flds. reflexivity.
+  Qed.
+
+  Lemma rd_dataL o k : o + k <= len dk -> rd fidx (bs + o) k = read_of dk o k.
+  Proof. intro H. rewrite Hrd. unfold F. rewrite <- len_phL. now rewrite read_of_skip_add. Qed.
+
+  Hypothesis Hbreak : get false (read_of dk 0 4) <> next_magic l.
+
+  Lemma vmnL : verify_magic_number rd fidx 0 = Ok bs.
+  Proof.
+    unfold verify_magic_number. destruct (bs_facts l img [] [] [] Hb) as [[Hb1 Hb2] [Ebs Hn]]. fold bs n in Hb1, Hb2, Ebs, Hn.
+    pose proof (sw_magic0 _ _ Hb) as Hm0.
+    assert (Hmu : magic_seq n (sl_magic0 l) = put32 false (sl_magic0 l) ++ magic_seq (n - 1) (nx (sl_magic0 l))).
+    { destruct n as [| k] eqn:E; [lia |]. cbn [magic_seq]. replace (S k - 1)%nat with k by lia. reflexivity. }
+    assert (HF : F = enc_flds false (phfG l disk vol used) ++ put32 false (sl_magic0 l)
+                     ++ magic_seq (n - 1) (nx (sl_magic0 l)) ++ dk).
+    { unfold F. rewrite phL_is, Hmu, <- !app_assoc. reflexivity. }
+    assert (Hprev : get32 false (rd fidx (0 + SPH_SIZE) 4) 0 = sl_magic0 l).
+    { rewrite Hrd, get32_read by lia. rewrite HF. unfold SPH_SIZE. rewrite N.add_0_l, N.add_0_r.
+      rewrite (read_of_section' (enc_flds false (phfG l disk vol used)) (put32 false (sl_magic0 l)));
+        [unfold put32; apply get_put; cbn; lia | rewrite len_enc_flds; reflexivity | now rewrite len_put32]. }
+    rewrite Hprev.
+    pose proof (magic_loop_run rd fidx F Hrd (n - 1) (sl_magic0 l) (enc_flds false (phfG l disk vol used)) dk
+                  (N.to_nat 262144) HF) as Hrun.
+    rewrite len_enc_flds in Hrun. change (flds_len (phfG l disk vol used)) with 168 in Hrun.
+    unfold SPH_SIZE. rewrite N.add_0_l. rewrite Hrun.
+    - replace (168 + 4 + 4 * N.of_nat (n - 1)) with bs by lia.
+      rewrite N.sub_0_r. unfold bs. rewrite (is_pow2_bs l img [] [] [] Hb). reflexivity.
+    - change (2^20) with 1048576 in Hb2. lia.
+    - exact Hm0.
+    - replace (S (n - 1)) with (S (N.to_nat ((sl_block_size l - 168) / 4 - 1))); [exact Hbreak |].
+      fold bs. unfold n. lia.
+  Qed.
+
+  Hypothesis Hvol : len vol = 16.
+  Hypothesis Hfidx : 1 <= fidx /\ fidx < nfiles /\ nfiles < 2^32.
+  Hypothesis Hused : used < 2^64.
+
+  Lemma sphL_fields :
+    has_sig (enc_flds false (phfG l disk vol used)) = true /\
+    get64 false (enc_flds false (phfG l disk vol used)) 160 = used /\
+    get32 false (enc_flds false (phfG l disk vol used)) 152 = disk /\
+    sub (enc_flds false (phfG l disk vol used)) 88 32 ++ sub (enc_flds false (phfG l disk vol used)) 136 16 = sl_ids l /\
+    sub (enc_flds false (phfG l disk vol used)) 120 16 = vol.
+  Proof.
+    unfold has_sig. set (fs := phfG l disk vol used).
+    rewrite (get32_flds false fs 0 1969512819) by (try reflexivity; cbn; lia).
+    rewrite (get32_flds false fs 4 28781) by (try reflexivity; cbn; lia).
+    split; [reflexivity |]. split; [apply get64_flds; [reflexivity | assumption | cbn; lia] |].
+    split; [apply get32_flds; [reflexivity | unfold disk; lia | cbn; lia] |].
+    rewrite (sub_flds false fs 88 32 (sub (sl_ids l) 0 32)) by (try reflexivity; cbn; lia).
+    rewrite (sub_flds false fs 136 16 (sub (sl_ids l) 32 16)) by (try reflexivity; cbn; lia).
+    rewrite (sub_flds false fs 120 16 vol) by (try reflexivity; cbn; lia).
+    pose proof (sw_ids _ _ Hb) as Hi.
+    assert (H32 : len (sub (sl_ids l) 0 32) = 32).
+    { unfold len at 1. rewrite sub_length by (rewrite Hi; lia). reflexivity. }
+    assert (H16 : len (sub (sl_ids l) 32 16) = 16).
+    { unfold len at 1. rewrite sub_length by (rewrite Hi; lia). reflexivity. }
+    rewrite !fit_exact by assumption. split; [| reflexivity].
+    unfold sub. cbn [N.to_nat skipn]. change (Pos.to_nat 32) with 32%nat. change (Pos.to_nat 16) with 16%nat.
+    rewrite <- (firstn_skipn 32 (sl_ids l)) at 3. f_equal.
+    apply firstn_all2. rewrite skipn_length. unfold len in Hi. lia.
+  Qed.
+
+  Definition extL : extent := {| ex_pos := bs; ex_len := len dk; ex_fidx := fidx |}.
+
+  (** [probe_file] on this file: its extent goes into the slot of its disk number *)
+  Lemma probe_later a :
+    pa_block_size a = bs -> pa_ids a = sl_ids l ->
+    nth (N.to_nat fidx) (pa_seen a) false = false -> nth 0 (pa_seen a) false = true ->
+    nth (N.to_nat fidx) (pa_vol a) None = Some vol ->
+    probe_file rd nfiles fidx a =
+    Ok {| pa_block_size := bs; pa_ids := sl_ids l; pa_vol := pa_vol a;
+          pa_seen := SadumpModel.set_nth (pa_seen a) (N.to_nat fidx) true;
+          pa_ext := SadumpModel.set_nth (pa_ext a) (N.to_nat fidx) extL;
+          pa_ptr := pa_ptr a; pa_max_pfn := pa_max_pfn a; pa_bmp_pos := pa_bmp_pos a |}.
+  Proof.
+    intros Hbs Hids Hseen Hseen0 Hv. destruct Hfidx as [H1 [H2 H3]].
+    unfold probe_file. rewrite sphL_is.
+    destruct sphL_fields as [Hsig [Hu [Hd [Hi Hvv]]]]. rewrite Hsig.
+    unfold open_common. rewrite Hi, Hu, Hd, Hvv. cbn [negb]. rewrite vmnL. rewrite N.sub_0_r.
+    destruct (N.eqb_spec fidx 0); [lia |]. cbn [negb andb].
+    rewrite Hbs, N.eqb_refl. cbn [negb]. rewrite Hids, (beqb_refl (sl_ids l)). cbn [negb].
+    unfold disk. destruct (N.eqb_spec (fidx + 1) 0); [lia |].
+    destruct (N.ltb_spec nfiles (fidx + 1)); [lia |].
+    replace (fidx + 1 - 1) with fidx by lia. rewrite Hseen.
+    unfold process_vol_id. rewrite Hseen0, Hv, (beqb_refl vol).
+    destruct (N.ltb_spec 1 (fidx + 1)); [| lia].
+    assert (Hlen : (used + 2^64 - bs) mod 2^64 = len dk).
+    { unfold used. replace (bs + len dk + 2^64 - bs) with (len dk + 1 * 2^64) by lia.
+      rewrite N.mod_add by discriminate. apply N.mod_small. unfold used in Hused. lia. }
+    rewrite Hlen. reflexivity.
+  Qed.
+End Later.
+
+(** ** the disk set header *)
+Definition set_entry (id : bytes) : bytes := enc_flds false [FB 16 id; F64 0; F32 0; F32 0].
+
+Lemma len_set_entry id : len (set_entry id) = 32.
+Proof. unfold set_entry. rewrite len_enc_flds. reflexivity. Qed.
+
+Lemma len_set_entries ids : len (flat_map set_entry ids) = 32 * N.of_nat (length ids).
+Proof.
+  induction ids as [| id t IH]; [reflexivity |]. cbn [flat_map length]. rewrite len_app, len_set_entry, IH. lia.
+Qed.
+
+Lemma sub_entry : forall ids A rest j,
+  Forall (fun id => len id = 16) ids -> (j < length ids)%nat ->
+  sub (A ++ flat_map set_entry ids ++ rest) (len A + 32 * N.of_nat j) 16 = nth j ids [].
+Proof.
+  induction ids as [| id t IH]; intros A rest j Hall Hj; [cbn in Hj; lia |].
+  inversion Hall as [| ? ? Hid Ht]; subst. cbn [flat_map]. destruct j.
+  - rewrite N.mul_0_r, N.add_0_r. cbn [nth]. unfold set_entry.
+    change (enc_flds false [FB 16 id; F64 0; F32 0; F32 0]) with (fit 16 id ++ enc_flds false [F64 0; F32 0; F32 0]).
+    rewrite fit_exact by assumption. rewrite <- !app_assoc.
+    unfold sub. rewrite to_nat_len, skipn_app_exact. rewrite <- Hid, to_nat_len. apply firstn_app_exact.
+  - cbn [nth]. rewrite <- app_assoc.
+    replace (A ++ set_entry id ++ flat_map set_entry t ++ rest) with ((A ++ set_entry id) ++ flat_map set_entry t ++ rest)
+      by (now rewrite <- app_assoc).
+    replace (len A + 32 * N.of_nat (S j)) with (len (A ++ set_entry id) + 32 * N.of_nat j)
+      by (rewrite len_app, len_set_entry; lia).
+    apply IH; [exact Ht | cbn in Hj; lia].
+Qed.
+
+(** the loop of [init_disk_set] when no other disk has been seen yet *)
+Fixpoint fill (k i : nat) (hdr : bytes) (vol : list (option bytes)) : list (option bytes) :=
+  match k with
+  | O => vol
+  | S k' => fill k' (S i) hdr (SadumpModel.set_nth vol i (Some (sub hdr (16 + 32 * N.of_nat i) 16)))
+  end.
+
+Lemma vol_loop_fill : forall k i hdr vol seen,
+  (forall j, nth j seen false = false) -> vol_loop k i hdr vol seen = Ok (fill k i hdr vol).
+Proof.
+  induction k as [| k IH]; intros i hdr vol seen H; [reflexivity |].
+  cbn [vol_loop fill]. rewrite (H i). now apply IH.
+Qed.
+
+Lemma fill_length : forall k i hdr vol, length (fill k i hdr vol) = length vol.
+Proof. induction k as [| k IH]; intros; [reflexivity |]. cbn [fill]. now rewrite IH, set_nth_length. Qed.
+
+Lemma fill_nth : forall k i hdr vol j,
+  (i + k <= length vol)%nat ->
+  nth j (fill k i hdr vol) None =
+  if (Nat.leb i j && Nat.ltb j (i + k))%bool then Some (sub hdr (16 + 32 * N.of_nat j) 16) else nth j vol None.
+Proof.
+  induction k as [| k IH]; intros i hdr vol j H.
+  - cbn [fill]. destruct (Nat.leb_spec i j); destruct (Nat.ltb_spec j (i + 0)); cbn [andb]; try reflexivity; lia.
+  - cbn [fill]. rewrite IH by (rewrite set_nth_length; lia).
+    destruct (Nat.leb_spec (S i) j); destruct (Nat.ltb_spec j (S i + k)); cbn [andb].
+    + destruct (Nat.leb_spec i j); destruct (Nat.ltb_spec j (i + S k)); cbn [andb]; try reflexivity; lia.
+    + rewrite nth_set_nth_ne by lia.
+      destruct (Nat.leb_spec i j); destruct (Nat.ltb_spec j (i + S k)); cbn [andb]; try reflexivity; lia.
+    + destruct (Nat.eq_dec j i) as [-> | Hne].
+      * rewrite nth_set_nth_eq by lia.
+        destruct (Nat.leb_spec i i); destruct (Nat.ltb_spec i (i + S k)); cbn [andb]; try reflexivity; lia.
+      * rewrite nth_set_nth_ne by lia.
+        destruct (Nat.leb_spec i j); destruct (Nat.ltb_spec j (i + S k)); cbn [andb]; try reflexivity; lia.
+    + lia.
+Qed.
+
+(** ** a disk set, the files given in disk order *)
+Record sd_wf_set (l : sd_layout) (img : image) : Prop := {
+  ss_base : sd_wf_base l img;
+  ss_kind : sl_kind l = SdDiskSet;
+  ss_vols : sl_vol_ids l <> [] /\ Forall (fun id => len id = 16) (sl_vol_ids l) /\
+            N.of_nat (length (sl_vol_ids l)) < 2^16;
+  ss_parts : length (sl_disk_pages l) = length (sl_vol_ids l) /\
+             Forall (fun c => 1 <= c) (sl_disk_pages l) /\
+             SD_PAGE * fold_right N.add 0 (sl_disk_pages l) = len (page_data img);
+  ss_hdr : 16 + 32 * N.of_nat (length (sl_vol_ids l)) <= sl_set_hdr_blocks l * sl_block_size l /\
+           sl_set_hdr_blocks l < 2^32;
+  (* what follows a partition header block must not continue its magic numbers:
+     the disk set header on disk 1, page data on the others *)
+  ss_break1 : sl_set_hdr_blocks l <> next_magic l;
+  ss_break : Forall (fun d => get false (read_of d 0 4) <> next_magic l)
+                    (tl (split_data (page_data img) (sl_disk_pages l)));
+  ss_size : Forall (fun f => len f < 2^64) (encode_sadump l img)
+}.
+
+Lemma split_data_length data counts : length (split_data data counts) = length counts.
+Proof. revert data. induction counts as [| c t IH]; intro data; [reflexivity |]. cbn [split_data length]. now rewrite IH. Qed.
+
+Lemma split_data_concat : forall counts data,
+  SD_PAGE * fold_right N.add 0 counts = len data ->
+  concat (split_data data counts) = data /\
+  Forall2 (fun d c => len d = c * SD_PAGE) (split_data data counts) counts.
+Proof.
+  induction counts as [| c t IH]; intros data H.
+  - cbn [fold_right] in H. cbn [split_data concat]. split; [| constructor].
+    destruct data; [reflexivity |]. rewrite len_cons in H. lia.
+  - cbn [fold_right split_data concat] in *.
+    assert (Hc : c * SD_PAGE <= len data) by lia.
+    assert (Hs : sub data 0 (c * SD_PAGE) = firstn (N.to_nat (c * SD_PAGE)) data) by reflexivity.
+    destruct (IH (skipn (N.to_nat (c * SD_PAGE)) data)) as [Hcat Hall].
+    { unfold len. rewrite skipn_length. unfold len in H, Hc. lia. }
+    split.
+    + rewrite Hcat, Hs. apply firstn_skipn.
+    + constructor; [| exact Hall]. rewrite Hs. unfold len. rewrite firstn_length. unfold len in Hc. lia.
+Qed.
+
+Lemma parts_page_multiple (dss : list bytes) cs :
+  Forall2 (fun d c => len d = c * SD_PAGE) dss cs ->
+  forall j, (j < length dss)%nat -> exists c, len (nth j dss []) = c * SD_PAGE.
+Proof.
+  induction 1 as [| d c dt ct Hdc Hr IH]; intros j Hj; [cbn in Hj; lia |].
+  destruct j; [exists c; exact Hdc |]. cbn [nth]. apply IH. cbn in Hj. lia.
+Qed.
+
+Section DiskSet.
+  Variable l : sd_layout.
+  Variable img : image.
+  Hypothesis Hwf : sd_wf_set l img.
+
+  Let bs := sl_block_size l.
+  Let data := page_data img.
+  Let ds := split_data data (sl_disk_pages l).
+  Let vols := sl_vol_ids l.
+  Let n := length vols.
+  Let SH := disk_set_header l.
+  Let d1 := nth 0 ds [].
+  Let v1 := nth 0 vols [].
+  Let files := encode_sadump l img.
+  Let rd := read_files files.
+  Let Hb := ss_base _ _ Hwf.
+
+  Lemma n_pos : (1 <= n)%nat.
+  Proof. destruct (ss_vols _ _ Hwf) as [Hne _]. unfold n, vols. destruct (sl_vol_ids l); [contradiction | cbn; lia]. Qed.
+
+  Lemma ds_length : length ds = n.
+  Proof. unfold ds. rewrite split_data_length. apply (ss_parts _ _ Hwf). Qed.
+
+  Lemma len_SH : len SH = sl_set_hdr_blocks l * bs.
+  Proof. apply len_fit. Qed.
+
+  Definition later_file (k : nat) : bytes :=
+    part_header l (N.of_nat k + 1) (nth k vols []) (bs + len (nth k ds [])) ++ nth k ds [].
+
+  Definition head_file : bytes :=
+    part_header l 1 v1 (bs + len SH + body_len l + len d1) ++ SH ++ body l img ++ d1.
+
+  Lemma files_nth k : (k < n)%nat ->
+    nth k files [] = if Nat.eqb k 0 then head_file else later_file k.
+  Proof.
+    intro Hk. unfold files, encode_sadump. rewrite (ss_kind _ _ Hwf).
+    pose proof ds_length as Hdl. pose proof n_pos as Hn. unfold n, vols in *. fold bs data ds SH.
+    unfold head_file, later_file, d1, v1, vols.
+    destruct ds as [| p rest] eqn:Eds; [cbn in Hdl; lia |].
+    destruct (sl_vol_ids l) as [| v vrest] eqn:Ev; [cbn in Hn; lia |].
+    cbn [length] in Hdl, Hk. destruct k as [| j]; [reflexivity |].
+    cbn [nth Nat.eqb].
+    set (f := fun kdv : N * (bytes * bytes) => let '(k, (d, v0)) := kdv in part_header l k v0 (bs + len d) ++ d).
+    assert (Hlen : length (combine (map N.of_nat (seq 2 (length rest))) (combine rest vrest)) = length rest).
+    { rewrite !combine_length, map_length, seq_length. lia. }
+    rewrite (nth_indep _ [] (f (0, ([], [])))) by (rewrite map_length, Hlen; lia).
+    rewrite map_nth.
+    assert (E1 : nth j (combine (map N.of_nat (seq 2 (length rest))) (combine rest vrest)) (0, ([], []))
+                 = (nth j (map N.of_nat (seq 2 (length rest))) 0, (nth j rest [], nth j vrest []))).
+    { rewrite combine_nth by (rewrite map_length, seq_length, combine_length; lia).
+      f_equal. apply combine_nth. lia. }
+    unfold bytes in *. rewrite E1.
+    rewrite (nth_indep _ 0 (N.of_nat 0)) by (rewrite map_length, seq_length; lia).
+    rewrite map_nth, seq_nth by lia. unfold f.
+    replace (N.of_nat (2 + j)) with (N.of_nat (S j) + 1) by lia. reflexivity.
+  Qed.
+
+  Lemma rd_file k off cnt : rd (N.of_nat k) off cnt = read_of (nth k files []) off cnt.
+  Proof. unfold rd, read_files. now rewrite Nat2N.id. Qed.
+
+  (** *** disk 1 *)
+  Let usedH := len (@nil N) + bs + len SH + body_len l + len d1.
+
+  Lemma usedS_is : usedH = bs + len SH + body_len l + len d1.
+  Proof. unfold usedH. rewrite len_nil. lia. Qed.
+
+  Lemma rd_headS off k : rd 0 off k = read_of ([] ++ part_header l 1 v1 usedH ++ SH ++ body l img ++ d1) off k.
+  Proof.
+    rewrite usedS_is. change 0 with (N.of_nat 0). rewrite rd_file, files_nth by apply n_pos. reflexivity.
+  Qed.
+
+  Lemma v1_len : len v1 = 16.
+  Proof.
+    destruct (ss_vols _ _ Hwf) as [Hne [Hall _]]. unfold v1, vols.
+    destruct (sl_vol_ids l) as [| v t]; [contradiction |]. inversion Hall; subst. assumption.
+  Qed.
+
+  Lemma files_small k : (k < n)%nat -> len (nth k files []) < 2^64.
+  Proof.
+    intro Hk. pose proof (ss_size _ _ Hwf) as Hall. fold files in Hall. rewrite Forall_forall in Hall.
+    apply Hall. apply nth_In.
+    unfold files, encode_sadump. rewrite (ss_kind _ _ Hwf).
+    pose proof ds_length as Hdl. unfold n, vols in *. fold bs data ds SH.
+    destruct ds as [| p rest]; [cbn in Hdl; lia |].
+    destruct (sl_vol_ids l) as [| v vrest]; [cbn in Hk; lia |].
+    cbn [length] in *. rewrite map_length, !combine_length, map_length, seq_length. lia.
+  Qed.
+
+  Lemma used_smallS : usedH < 2^64.
+  Proof.
+    pose proof (files_small 0 n_pos) as H. rewrite files_nth in H by apply n_pos. cbn [Nat.eqb] in H.
+    unfold head_file in H. rewrite !len_app in H.
+    rewrite (len_body l img [] [] [] Hb) in H.
+    pose proof (len_PHb l img [] SH d1 v1 1 Hb) as Hp. unfold PHb in Hp.
+    change (len (@nil N) + sl_block_size l + len SH + body_len l + len d1) with usedH in Hp.
+    rewrite usedS_is in Hp. rewrite Hp in H. rewrite usedS_is. fold bs in H. lia.
+  Qed.
+
+  Definition SHc : bytes :=
+    enc_flds false [F32 (sl_set_hdr_blocks l); F32 (N.of_nat n); F64 0] ++ flat_map set_entry vols.
+
+  Lemma SH_is : SH = SHc ++ zeros (sl_set_hdr_blocks l * bs - len SHc).
+  Proof.
+    unfold SH, disk_set_header. fold bs. apply fit_small.
+    unfold SHc. rewrite len_app, len_enc_flds, len_set_entries. destruct (ss_hdr _ _ Hwf) as [H _].
+    fold bs vols n in H. cbn [flds_len fld_len]. fold n. lia.
+  Qed.
+
+  Lemma break_set : get false (read_of (after_block l img SH d1) 0 4) <> next_magic l.
+  Proof.
+    unfold after_block. rewrite SH_is. unfold SHc.
+    change (enc_flds false [F32 (sl_set_hdr_blocks l); F32 (N.of_nat n); F64 0])
+      with (put32 false (sl_set_hdr_blocks l) ++ enc_flds false [F32 (N.of_nat n); F64 0]).
+    rewrite <- !app_assoc. rewrite (read_of_exact' (put32 false (sl_set_hdr_blocks l))) by (now rewrite len_put32).
+    destruct (ss_hdr _ _ Hwf) as [_ Hlt].
+    unfold put32. rewrite get_put by (cbn; lia). exact (ss_break1 _ _ Hwf).
+  Qed.
+
+  (** the volume ids in the header, as [init_disk_set] reads them *)
+  Lemma SH_id j : (j < n)%nat -> sub SH (16 + 32 * N.of_nat j) 16 = nth j vols [].
+  Proof.
+    intro Hj. rewrite SH_is. unfold SHc. rewrite <- app_assoc.
+    destruct (ss_vols _ _ Hwf) as [_ [Hall _]].
+    apply (sub_entry vols (enc_flds false [F32 (sl_set_hdr_blocks l); F32 (N.of_nat n); F64 0]) _ j Hall Hj).
+  Qed.
+
+  Definition vol_all : list (option bytes) := map Some vols.
+
+  Lemma init_ok a :
+    length (pa_vol a) = n -> (forall j, nth j (pa_seen a) false = false) ->
+    init_disk_set rd 0 (len (@nil N) + bs) bs (N.of_nat n) a = Ok (hdr_pos l [] SH, vol_all).
+  Proof.
+    intros Hlen Hseen. unfold init_disk_set.
+    destruct (ss_hdr _ _ Hwf) as [Hfit Hblk]. fold bs vols n in Hfit.
+    destruct (ss_vols _ _ Hwf) as [_ [_ Hn16]]. fold vols n in Hn16.
+    pose proof (rd_mid_part l img rd [] SH d1 v1 1 Hb rd_headS) as Hpart.
+    pose proof (rd_mid l img rd [] SH d1 v1 1 Hb rd_headS) as Hmid.
+    assert (Hblocks : get32 false (rd 0 (len (@nil N) + bs) 4) 0 = sl_set_hdr_blocks l).
+    { rewrite <- (N.add_0_r (len [] + bs)). fold bs in Hpart. rewrite Hpart by (rewrite len_SH; lia).
+      rewrite SH_is. rewrite read_of_prefix by (unfold SHc; rewrite len_app, len_enc_flds; cbn [flds_len fld_len]; lia).
+      unfold SHc. unfold get32. rewrite sub_read_of by lia. rewrite N.add_0_l.
+      apply get32_fld; [reflexivity | assumption]. }
+    rewrite Hblocks.
+    destruct (N.ltb_spec (sl_set_hdr_blocks l * bs) 16); [lia |].
+    fold bs in Hmid. rewrite <- len_SH. rewrite Hmid.
+    assert (Hnum : get32 false SH 4 = N.of_nat n).
+    { rewrite SH_is. unfold get32. rewrite sub_eq_read_of by (rewrite len_app, len_zeros; unfold SHc; rewrite len_app, len_enc_flds; cbn [flds_len fld_len]; lia).
+      unfold SHc. rewrite <- !app_assoc. apply get32_fld; [reflexivity | lia]. }
+    rewrite Hnum, N.eqb_refl. cbn [negb].
+    destruct (N.ltb_spec (len SH) (16 + N.of_nat n * 32)); [rewrite len_SH in *; lia |].
+    rewrite Nat2N.id, (vol_loop_fill n 0 SH (pa_vol a) (pa_seen a) Hseen).
+    f_equal. apply f_equal2; [reflexivity |].
+    unfold vol_all. apply (nth_ext _ _ None None).
+    - rewrite fill_length, map_length. exact Hlen.
+    - intros j Hj. rewrite fill_length, Hlen in Hj. rewrite fill_nth by lia.
+      destruct (Nat.leb_spec 0 j); [| lia]. destruct (Nat.ltb_spec j (0 + n)); [| lia]. cbn [andb].
+      rewrite SH_id by assumption.
+      transitivity (nth j (map Some vols) (Some [])); [now rewrite map_nth | apply nth_indep; rewrite map_length; exact Hj].
+  Qed.
+
+  (** *** the whole set *)
+  Definition zero_ext : extent := {| ex_pos := 0; ex_len := 0; ex_fidx := 0 |}.
+
+  Definition ext_of (k : nat) : extent :=
+    match k with
+    | O => ext0 l [] SH d1
+    | S _ => {| ex_pos := bs; ex_len := len (nth k ds []); ex_fidx := N.of_nat k |}
+    end.
+
+  Definition exts : list extent := map ext_of (seq 0 n).
+
+  Record inv (k : nat) (a : probe_acc) : Prop := {
+    i_bs : pa_block_size a = bs;
+    i_ids : pa_ids a = sl_ids l;
+    i_vol : pa_vol a = vol_all;
+    i_seen : pa_seen a = repeat true k ++ repeat false (n - k);
+    i_ext : pa_ext a = map ext_of (seq 0 k) ++ repeat zero_ext (n - k);
+    i_ptr : pa_ptr a = Some (ptr l);
+    i_max : pa_max_pfn a = sl_max_mapnr l;
+    i_bmp : pa_bmp_pos a = bmp_pos l [] SH
+  }.
+
+  Lemma head_step :
+    exists a, probe_file rd (N.of_nat n) 0 (a0 n) = Ok a /\ inv 1 a.
+  Proof.
+    pose proof n_pos as Hn. pose proof v1_len as Hv. assert (Hd : 1 < 2^32) by reflexivity.
+    unfold probe_file.
+    pose proof (sph_is l img rd [] SH d1 v1 1 rd_headS) as Hs. change (len []) with 0 in Hs. rewrite Hs.
+    destruct (sph_fields l img [] SH d1 v1 1 Hb break_set Hv Hd used_smallS) as [Hsig _]. rewrite Hsig.
+    pose proof (oc_set l img rd [] SH d1 v1 1 Hb rd_headS break_set Hv Hd used_smallS (a0 n) (N.of_nat n) vol_all
+                  eq_refl ltac:(lia) eq_refl) as Ho.
+    change (len (@nil N)) with 0 in Ho at 1.
+    eexists. split.
+    - apply Ho.
+      + cbn [a0 pa_seen]. destruct n; [lia | reflexivity].
+      + apply init_ok.
+        * cbn [a0 pa_vol]. rewrite set_nth_length, repeat_length. reflexivity.
+        * intro j. cbn [a0 pa_seen]. destruct (Nat.lt_ge_cases j n).
+          -- now rewrite nth_repeat.
+          -- apply nth_overflow. rewrite repeat_length. lia.
+    - constructor; cbn [pa_block_size pa_ids pa_vol pa_seen pa_ext pa_ptr pa_max_pfn pa_bmp_pos a0]; try reflexivity.
+      + rewrite set_nth_repeat0 by exact Hn. reflexivity.
+      + rewrite set_nth_repeat0 by exact Hn. reflexivity.
+  Qed.
+
+  Lemma later_step k a :
+    (1 <= k < n)%nat -> inv k a ->
+    exists a', probe_file rd (N.of_nat n) (N.of_nat k) a = Ok a' /\ inv (S k) a'.
+  Proof.
+    intros Hk [Ibs Iids Ivol Iseen Iext Iptr Imax Ibmp].
+    destruct (ss_vols _ _ Hwf) as [_ [Hall Hn16]]. fold vols n in Hall, Hn16.
+    assert (Hvk : len (nth k vols []) = 16).
+    { rewrite Forall_forall in Hall. apply Hall. apply nth_In. unfold n in Hk. lia. }
+    assert (Hrdk : forall off c, rd (N.of_nat k) off c =
+              read_of (part_header l (N.of_nat k + 1) (nth k vols []) (bs + len (nth k ds [])) ++ nth k ds []) off c).
+    { intros. rewrite rd_file, files_nth by lia. destruct k; [lia | reflexivity]. }
+    assert (Hbrk : get false (read_of (nth k ds []) 0 4) <> next_magic l).
+    { pose proof (ss_break _ _ Hwf) as Hbr. fold data ds in Hbr. rewrite Forall_forall in Hbr.
+      apply Hbr. apply nth_in_tl. rewrite ds_length. lia. }
+    assert (Husedk : bs + len (nth k ds []) < 2^64).
+    { pose proof (files_small k ltac:(lia)) as H. rewrite files_nth in H by lia.
+      destruct k as [| j]; [lia |]. cbn [Nat.eqb] in H. unfold later_file in H. rewrite len_app in H.
+      pose proof (len_phL l img (N.of_nat (S j)) (nth (S j) vols []) (nth (S j) ds []) Hb) as Hp.
+      fold bs in Hp. rewrite Hp in H. exact H. }
+    pose proof (probe_later l img rd (N.of_nat k) (N.of_nat n) (nth k vols []) (nth k ds []) Hb Hrdk Hbrk Hvk
+                  ltac:(lia) Husedk a Ibs Iids) as Hp.
+    rewrite Nat2N.id in Hp.
+    eexists. split.
+    - apply Hp.
+      + rewrite Iseen. rewrite app_nth2 by (rewrite repeat_length; lia). rewrite repeat_length.
+        apply nth_repeat.
+      + rewrite Iseen. rewrite app_nth1 by (rewrite repeat_length; lia).
+        clear - Hk. destruct k; [lia | reflexivity].
+      + rewrite Ivol. unfold vol_all.
+        transitivity (nth k (map Some vols) (Some [])); [apply nth_indep; rewrite map_length; unfold n in Hk; lia | now rewrite map_nth].
+    - constructor; cbn [pa_block_size pa_ids pa_vol pa_seen pa_ext pa_ptr pa_max_pfn pa_bmp_pos]; try assumption; try reflexivity.
+      + rewrite Iseen. replace (n - k)%nat with (S (n - S k)) by lia. cbn [repeat].
+        rewrite set_nth_app' by apply repeat_length.
+        rewrite repeat_cons, <- app_assoc. reflexivity.
+      + rewrite Iext. replace (n - k)%nat with (S (n - S k)) by lia. cbn [repeat].
+        rewrite set_nth_app' by (now rewrite map_length, seq_length).
+        rewrite seq_S, map_app. cbn [map Nat.add]. rewrite <- app_assoc. cbn [app].
+        do 2 f_equal. unfold extL, ext_of. clear - Hk. destruct k; [lia | reflexivity].
+  Qed.
+
+  Lemma rest_steps : forall j k a,
+    (1 <= k)%nat -> (k + j = n)%nat -> inv k a ->
+    exists a', probe_files rd j (N.of_nat n) (N.of_nat k) a = Ok a' /\ inv n a'.
+  Proof.
+    induction j as [| j IH]; intros k a Hk Hsum Hinv.
+    - exists a. split; [reflexivity |]. replace n with k by lia. exact Hinv.
+    - cbn [probe_files]. destruct (later_step k a ltac:(lia) Hinv) as [a1 [Hp Hi1]]. rewrite Hp.
+      replace (N.of_nat k + 1) with (N.of_nat (S k)) by lia. apply IH; [lia | lia | exact Hi1].
+  Qed.
+
+  Lemma probe_all : forall fuel, fuel = n ->
+    exists a, probe_files rd fuel (N.of_nat n) 0 (a0 n) = Ok a /\ inv n a.
+  Proof.
+    intros fuel E. pose proof n_pos as Hn. destruct fuel as [| j]; [lia |]. cbn [probe_files].
+    destruct head_step as [a1 [Hp1 Hi1]]. rewrite Hp1.
+    change (0 + 1) with (N.of_nat 1). apply (rest_steps j 1 a1); [lia | lia | exact Hi1].
+  Qed.
+
+  Theorem sd_open_set :
+    sd_open rd n = Ok (the_state img (nbytes l) exts (sl_max_mapnr l) bs (ptr l) (N.of_nat n)).
+  Proof.
+    pose proof n_pos as Hn. pose proof v1_len as Hv. assert (Hd : 1 < 2^32) by reflexivity.
+    unfold sd_open. fold (a0 n).
+    destruct (probe_all n eq_refl) as [a [Hpf [Ibs Iids Ivol Iseen Iext Iptr Imax Ibmp]]].
+    rewrite Hpf. cbv beta iota.
+    assert (Hexts' : exts = ext0 l [] SH d1 :: tl exts).
+    { unfold exts. apply (map_seq_head ext_of n Hn). }
+    assert (Hexts : pa_ext a = ext0 l [] SH d1 :: tl exts).
+    { rewrite Iext, Nat.sub_diag. cbn [repeat]. rewrite app_nil_r. exact Hexts'. }
+    rewrite Hexts' at 1.
+    apply (open_tail l img rd [] SH d1 v1 1 Hb rd_headS break_set Hv Hd used_smallS a (tl exts)); assumption.
+  Qed.
+
+  (** the extents lay out the page data *)
+  Lemma set_page_path k : k < count_some img ->
+    exists f o, ext_loop exts (4096 * k) = Some (f, o) /\
+                rd f o 4096 = read_of (page_data img) (4096 * k) 4096.
+  Proof.
+    intro Hk. pose proof (len_page_data img (sw_pages _ _ Hb)) as Hl.
+    destruct (ss_parts _ _ Hwf) as [Hlenp [_ Hsum]].
+    destruct (split_data_concat (sl_disk_pages l) (page_data img) Hsum) as [Hcat Hlens]. fold data ds in Hcat, Hlens.
+    pose proof ds_length as Hdl.
+    set (chunks := combine exts ds).
+    assert (Hfst : map fst chunks = exts).
+    { unfold chunks. apply map_fst_combine. unfold exts. rewrite map_length, seq_length. lia. }
+    assert (Hsnd : map snd chunks = ds).
+    { unfold chunks. apply map_snd_combine. unfold exts. rewrite map_length, seq_length. lia. }
+    rewrite <- Hfst. fold data. rewrite <- Hcat, <- Hsnd.
+    apply ext_loop_chunks.
+    - apply Forall_forall. intros [e d] Hin. cbn [fst snd].
+      apply (In_nth _ _ (zero_ext, [])) in Hin as [j [Hj Hnth]].
+      unfold chunks in Hj, Hnth. rewrite combine_length in Hj. unfold exts in Hj. rewrite map_length, seq_length in Hj.
+      assert (E : nth j (combine exts ds) (zero_ext, []) = (nth j exts zero_ext, nth j ds []))
+        by (apply combine_nth; unfold exts; rewrite map_length, seq_length; lia).
+      pose proof (eq_trans (eq_sym E) Hnth) as Hn2. injection Hn2 as He Hd'. subst e d.
+      assert (Hjn : (j < n)%nat) by lia.
+      unfold exts. rewrite (nth_indep _ zero_ext (ext_of 0)) by (rewrite map_length, seq_length; lia).
+      rewrite map_nth, seq_nth by lia. cbn [Nat.add].
+      assert (Hmod : len (nth j ds []) mod 4096 = 0).
+      { assert (Hc : exists c, len (nth j ds []) = c * SD_PAGE).
+        { apply (parts_page_multiple ds (sl_disk_pages l) Hlens). lia. }
+        destruct Hc as [c ->]. unfold SD_PAGE. apply N.mod_mul. discriminate. }
+      destruct j as [| j'].
+      + cbn [ext_of ext0 ex_len ex_fidx ex_pos]. fold d1. split; [reflexivity |]. split; [exact Hmod |].
+        intros o c Hoc. apply (rd_data l img rd [] SH d1 v1 1 Hb rd_headS o c Hoc).
+      + cbn [ext_of ex_len ex_fidx ex_pos]. split; [reflexivity |]. split; [exact Hmod |].
+        intros o c Hoc.
+        assert (Hrdk : forall off c0, rd (N.of_nat (S j')) off c0 =
+                  read_of (part_header l (N.of_nat (S j') + 1) (nth (S j') vols []) (bs + len (nth (S j') ds [])) ++ nth (S j') ds []) off c0).
+        { intros. rewrite rd_file, files_nth by lia. reflexivity. }
+        apply (rd_dataL l img rd (N.of_nat (S j')) (nth (S j') vols []) (nth (S j') ds []) Hb Hrdk o c Hoc).
+    - rewrite N.mul_comm. apply N.mod_mul. discriminate.
+    - rewrite Hsnd, Hcat. unfold data. rewrite Hl. lia.
+  Qed.
+End DiskSet.
+
+Theorem sadump_set_roundtrip l img :
+  sd_wf_set l img ->
+  exists st, sd_open (read_files (encode_sadump l img)) (length (sl_vol_ids l)) = Ok st /\
+    sd_ptr_size st = (if existsb (fun b => b) (sl_lma l) then 8 else 4) /\
+    sd_max_pfn st = sl_max_mapnr l /\ sd_block_size st = sl_block_size l /\
+    forall z pfn,
+      sd_read_page (read_files (encode_sadump l img)) st z pfn =
+      spec_read_page img SADUMP_PAGE_SIZE (sl_max_mapnr l) z pfn.
+Proof.
+  intro Hwf. pose proof (ss_base _ _ Hwf) as Hb.
+  eexists. split; [exact (sd_open_set l img Hwf) |].
+  split; [reflexivity |]. split; [reflexivity |]. split; [reflexivity |].
+  intros z pfn. apply sadump_page_path.
+  - exact (sw_pages _ _ Hb).
+  - destruct (sw_cover _ _ Hb) as [H1 H2]. unfold nbytes. lia.
+  - intros k Hk. exact (set_page_path l img Hwf k Hk).
 Qed.
